@@ -123,6 +123,7 @@ Inductive gval :=
 | VOrc (name : string) (answers : list (string * list gval))
 | VTok (name : string) (args : list gval)
 | VAtom (name : string) (cur : N)              (* an atomic.Uint64 holding cur: Load / CompareAndSwap *)
+| VSeg (tag : string) (lo hi : N)              (* the slice [lo:hi] of the list named tag (the items / blobs of a submission) *)
 | VUnit.
 
 Definition env := list (string * gval).
@@ -131,7 +132,16 @@ Definition env := list (string * gval).
 Definition llen (l : list gval) : N := N.of_nat (length l).
 (* equality of two string VALUES of the program (hashes given by name), under its own name for the same reason *)
 Definition str_eqb (a b : string) : bool := String.eqb a b.
-Definition str_app (a b : string) : string := String.append a b.   (* concatenation of two string VALUES of the program *)
+Definition str_app (a b : string) : string := String.append a b.
+Definition seg_len (lo hi : N) : N := (hi - lo)%N.               (* the length of a segment, under its own name *)
+Definition status_eqb (a b : Proxy.status) : bool :=
+  match a, b with
+  | Proxy.StUnknown, Proxy.StUnknown | Proxy.StSuccess, Proxy.StSuccess | Proxy.StNotFound, Proxy.StNotFound
+  | Proxy.StNotIncluded, Proxy.StNotIncluded | Proxy.StMempool, Proxy.StMempool | Proxy.StTooBig, Proxy.StTooBig
+  | Proxy.StDeadline, Proxy.StDeadline | Proxy.StError, Proxy.StError | Proxy.StSeq, Proxy.StSeq
+  | Proxy.StCanceled, Proxy.StCanceled | Proxy.StFuture, Proxy.StFuture => true
+  | _, _ => false
+  end.   (* concatenation of two string VALUES of the program *)
 Definition lapp (a b : list gval) : list gval := a ++ b.
 
 Fixpoint lookup {A} (l : list (string * A)) (x : string) : option A :=
@@ -379,6 +389,7 @@ Definition builtin (globals : env) (f : string) (args : list gval) : res gval :=
     | [VList l] => RRet (VN (llen l))
     | [VTok _ _] => RRet (VTok "len" args)
     | [VLE64 _] => RRet (VN 8)
+    | [VSeg _ lo hi] => RRet (VN (seg_len lo hi))
     | [VStr _] => RRet (VTok "len" args)
     | [VTxsQ _] => RRet (VN 1)                 (* a VTxsQ is a NON-EMPTY transaction list, by id; its length only matters as "not 0" *)
     | _ => RFail "len"
@@ -457,6 +468,13 @@ Definition builtin (globals : env) (f : string) (args : list gval) : res gval :=
   else if (f =? "getHeaderKey") || (f =? "getDataKey") || (f =? "getSignatureKey") || (f =? "getStateKey") ||
           (f =? "getMetaKey") || (f =? "getIndexKey") || (f =? "getHeightKey") then
     RRet (VTok f args)                                         (* pkg/store/keys.go: a key, by the function that builds it and its argument *)
+  else if f =? "$slice_to" then                                 (* a[:n] *)
+    match args with [VSeg t lo hi; VN n] => RRet (VSeg t lo (lo + n)) | _ => RFail "a[:n]" end
+  else if f =? "$slice_from" then                               (* a[n:] *)
+    match args with [VSeg t lo hi; VN n] => RRet (VSeg t (lo + n) hi) | _ => RFail "a[n:]" end
+  else if f =? "context.WithTimeout" then RRet (VTuple [VTok "ctx-with-timeout" args; VUnit])
+  else if (f =? "int") || (f =? "time.Duration") then match args with [v] => RRet v | _ => RFail f end
+  else if f =? "max" then match args with [VZ a; VZ b] => RRet (VZ (Z.max a b)) | _ => RFail "max" end
   else if f =? "filepath.Join" then RRet (VTok f args)           (* a path, by its components *)
   else if f =? "gob.NewEncoder" then match args with [w] => RRet w | _ => RFail "gob.NewEncoder" end   (* encoding into w *)
   else if f =? "gob.Register" then RRet VUnit
@@ -523,6 +541,8 @@ Definition arith (o : binop) (a b : gval) : res gval :=
   | OAdd, VZ x, VZ y => RRet (VZ (x + y))
   | OSub, VZ x, VZ y => RRet (VZ (x - y))
   | OMul, VZ x, VZ y => RRet (VZ (x * y))
+  | OQuo, VZ x, VZ y => RRet (VZ (x / y))                      (* a price / duration ratio, as integers *)
+  | OEq, VStatus a, VStatus b => RRet (VBool (status_eqb a b))
   | OEq, VBool x, VBool y => RRet (VBool (Bool.eqb x y))
   | OAdd, VStr x, VStr y => RRet (VStr (str_app x y))
   (* comparison with nil: the literal nil is recognised by its constructor, so that the nil-ness [p] of the other side
@@ -959,6 +979,16 @@ with exec (fuel : nat) (fs : list (string * gfun)) (globals en : env) (lg : list
                 end
               end
             end))
+      | SExpr (ECall f args) =>
+          match lookup fs f, lookup globals "$pkg" with
+          | None, Some pk =>
+              bind (seq_res (map ev args)) (fun vs =>
+                match orc_meth pk f vs lg with
+                | Some (_, eff) => exec fuel' fs globals en (eff :: lg) rest
+                | None => bind (ev (ECall f args)) (fun _ => exec fuel' fs globals en lg rest)
+                end)
+          | _, _ => bind (ev (ECall f args)) (fun _ => exec fuel' fs globals en lg rest)
+          end
       | SExpr e => bind (ev e) (fun _ => exec fuel' fs globals en lg rest)
       | SSendOrDone ch v oncancel =>
           match lookup globals "$cancelled" with
